@@ -10,6 +10,7 @@ import (
 	"net"
 	"sync"
 	"sync/atomic"
+	"syscall"
 	"time"
 
 	"verif/internal/quiesce"
@@ -57,6 +58,8 @@ type Server struct {
 	FailWrites int32 // when set, the client's writes fail (half-broken connection)
 	quit       chan struct{}
 	quitOnce   sync.Once
+	// Pace, if set, runs in the writer goroutine after each written buffer.
+	Pace func()
 }
 
 // halfConn lets the scenario make the client's writes fail while reads go on.
@@ -75,10 +78,19 @@ func (h halfConn) Write(b []byte) (int, error) {
 // New creates the pair of connections and starts reader and writer.
 func New(handler func(s *Server, r *Req)) *Server {
 	c, sv := net.Pipe()
+	return NewOn(c, sv, handler)
+}
+
+// NewOn is New on a given pair of connected ends (c goes to the client).
+func NewOn(c, sv net.Conn, handler func(s *Server, r *Req)) *Server {
 	s := &Server{S: sv, notify: make(chan struct{}, 1), tagsOut: map[uint16]uint8{},
 		fids: map[uint64]string{}, pendBind: map[uint16]uint64{}, pendUnbind: map[uint16]uint64{},
 		Handler: handler, wq: make(chan []byte, 1<<16), wdone: make(chan struct{}), ReaderDone: make(chan struct{}), quit: make(chan struct{})}
-	s.C = halfConn{c, s}
+	if _, ok := c.(syscall.Conn); ok {
+		s.C = c // keep the vectorised socket path reachable
+	} else {
+		s.C = halfConn{c, s}
+	}
 	go s.reader()
 	go s.writer()
 	return s
@@ -107,6 +119,8 @@ func (s *Server) writer() {
 				s.mu.Lock()
 				s.werr = err
 				s.mu.Unlock()
+			} else if s.Pace != nil {
+				s.Pace()
 			}
 		}
 		atomic.AddInt64(&s.wpending, -1)
@@ -232,8 +246,8 @@ func (s *Server) SetNegotiated(msize, version uint32) {
 	s.mu.Unlock()
 }
 
-// account updates tag/fid state for a reply frame about to be sent.
-func (s *Server) account(frame []byte) {
+// Account updates tag/fid state for a reply frame about to be sent.
+func (s *Server) Account(frame []byte) {
 	if len(frame) < 7 {
 		return
 	}
@@ -276,7 +290,7 @@ func (s *Server) SendRaw(b []byte) {
 
 // ReplyFrame accounts and queues a reply frame.
 func (s *Server) ReplyFrame(frame []byte) {
-	s.account(frame)
+	s.Account(frame)
 	s.SendRaw(frame)
 }
 
